@@ -22,8 +22,8 @@ def C01_statement : Prop :=
 /-- translation correctness on the fragment, for every program, every N -/
 theorem C01_partial (p : Prog) (c : CProg) (N fuel : Nat) (t : List Ev)
     (hin : InF p = true) (htr : tr p = .ok c) (hpy : Py.run p N fuel = .ok t) :
-    ∃ fuel', C.run c N fuel' = .ok t ∨ C.run c N fuel' = .error .overflow := by
-  sorry
+    ∃ fuel', C.run c N fuel' = .ok t ∨ C.run c N fuel' = .error .overflow :=
+  Reduino.Lemmas.C01.C01_partial_aux p c N fuel t hin htr hpy
 
 /-- a `break` that would leave the main loop is always rejected, through any nesting of `if` -/
 def breaksOut : Stmt → Bool
